@@ -77,7 +77,10 @@ class AbsPDF:
 
     @contextlib.contextmanager
     def temp_params(self, var):
-        params = self.get_params()
+        # the stored values, not get_params(): inside a mask_params block
+        # that returns the masked values, which would then be written into
+        # the variables on exit
+        params = {k: v.numpy() for k, v in self.vm.variables.items()}
         self.set_params(var)
         try:
             yield var
